@@ -127,12 +127,12 @@ def classify_c12(hist, at, what, slack):
     eps = slack - 100
     row = hist[at]
     if what == WHAT_IDLE:
-        if row["ev"] == "decision":
+        if row["ev"] == "decision":      # judged at the decision: the offending entry is the latest one logged before it
             dec = row
-        else:
+            last = max([r for r in hist[:at] if r["ev"] == "enter"], key=lambda r: r["t"])
+        else:                            # an entry that happened before the decision but was logged after it
             dec = [r for r in hist[:at] if r["ev"] == "decision"][-1]
-        enters = [r for r in hist if r["ev"] == "enter" and r["t"] <= dec["t"]]
-        last = max(enters, key=lambda r: r["t"])
+            last = row
         pops = [r for r in hist if r["ev"] == "pop" and r["t"] <= dec["t"]]
         turns = [r for r in hist[:hist.index(last)] if r["ev"] == "turnbegin"]      # a turn is exclusive: the latest one logged before the entry is its own
         if last["a"] >= 0 and last["t"] - last["a"] > eps and turns and -3 <= last["a"] - turns[-1]["t"] <= eps:
@@ -234,7 +234,7 @@ def run_c12(ctx):
 
     def replay(tag):
         d = dumps[tag].result()
-        per_root = {"quick": 30 if quick else 150, "thorough": 250, "prefix": 12 if quick else 80}[tag]
+        per_root = {"quick": 30 if quick else 150, "thorough": 250, "prefix": 12 if quick else 60}[tag]
         rng = random.Random("%s-%s" % (ctx.seed, tag))       # replays run in threads: one generator each
         beh, info, nedges = select_walks(rng, d.rundir, per_root, not quick, tag)
         rng.shuffle(beh)
@@ -442,7 +442,7 @@ def run_c31(ctx):
         path = os.path.join(d.rundir, "graph.dot")
         g = tlagraph.Graph.load(path)
         rng = random.Random("%s-%s" % (ctx.seed, tag))
-        per_root = {"quick": 70 if quick else 400, "thorough": 500}[tag]
+        per_root = {"quick": 70 if quick else 500, "thorough": 1000}[tag]
         beh, info = [], []
         for i, r in enumerate(sorted(set(graph_roots(path)))):
             g.root = r
